@@ -7,7 +7,10 @@ mod order;
 use tvh_common::*;
 
 fn main() {
-    silence_panics();
+    guarded_main(run);
+}
+
+fn run() {
     let args = Args::from_env();
     match args.cmd() {
         "replay-agg" => agg::replay(&args),
